@@ -33,6 +33,7 @@ if [ "$REPO" != "/repo" ]; then
   MODFILE="-modfile=.scratch/go$SUF.mod"
 fi
 BIN="bin/vcheck$RACE$SUF"
+export VERIF_MODFILE="$MODFILE"
 # serialise builds (several checks may be started at once)
 exec 9>.scratch/build.lock
 flock 9
